@@ -648,6 +648,10 @@ func grpcErrorFromTrailer(bufferPool *bufferPool, protobuf Codec, trailer http.H
 	if err != nil {
 		return errorf(CodeInternal, "gRPC protocol error: invalid error code %q", codeHeader)
 	}
+	if code == 0 {
+		// Zero with leading zeros ("00") is still the OK status.
+		return nil
+	}
 	message := grpcPercentDecode(bufferPool, trailer.Get(grpcHeaderMessage))
 	retErr := NewError(Code(code), errors.New(message))
 
@@ -660,6 +664,14 @@ func grpcErrorFromTrailer(bufferPool *bufferPool, protobuf Codec, trailer http.H
 		var status statusv1.Status
 		if err := protobuf.Unmarshal(detailsBinary, &status); err != nil {
 			return errorf(CodeInternal, "server returned invalid protobuf for error details: %w", err)
+		}
+		if status.Code == 0 {
+			// The trailers report a failure, so the status message can't say OK.
+			return errorf(
+				CodeInternal,
+				"gRPC protocol error: grpc-status-details-bin carries the OK code but grpc-status is %q",
+				codeHeader,
+			)
 		}
 		for _, d := range status.Details {
 			retErr.details = append(retErr.details, d)
